@@ -289,6 +289,39 @@ Section SERVER.
       intros Ran. eapply serve_gate; eauto.
   Qed.
 
+  (* ---- concurrent requests ---------------------------------------------- *)
+
+  (* The only state the gates keep between requests is the per-route hit counters, and no answer
+     depends on them: a request gets the same output and runs the same route from EVERY state.
+     So whatever the order in which concurrent requests pass the gates, each gets the answer it
+     would get alone on a fresh server. *)
+  Lemma serve_state_independent : forall limit tab st st' q,
+    s_out (snd (serve limit tab st q)) = s_out (snd (serve limit tab st' q)) /\
+    s_route (snd (serve limit tab st q)) = s_route (snd (serve limit tab st' q)).
+  Proof.
+    intros limit tab st st' q. unfold Server.serve.
+    destruct (find_bound (q_route q) tab) as [b|]; [|split; reflexivity].
+    unfold Server.serve_bound. destruct (b_jwt b) as [jc|]; [|split; reflexivity].
+    pose proof (authorize_result_history_irrelevant mac false false (st_get (b_route b) st) (st_get (b_route b) st')
+                  jc (q_jnow q) (q_cred q)) as A.
+    fold (authorize mac) in A.
+    destruct (authorize mac (st_get (b_route b) st) jc (q_jnow q) (q_cred q)) as [h1 r1].
+    destruct (authorize mac (st_get (b_route b) st') jc (q_jnow q) (q_cred q)) as [h2 r2].
+    cbn [snd] in A. subst r2. destruct (jran r1); split; reflexivity.
+  Qed.
+
+  Theorem any_order_same_answers : forall limit tab qs st,
+    map (fun o => (s_out o, s_route o)) (serve_all limit tab st qs) =
+    map (fun q => (s_out (snd (serve limit tab [] q)), s_route (snd (serve limit tab [] q)))) qs.
+  Proof.
+    intros limit tab qs. induction qs as [|q qs IH]; intros st; cbn [Server.serve_all map].
+    - reflexivity.
+    - destruct (serve limit tab st q) as [st1 o] eqn:S.
+      cbn [map]. rewrite IH.
+      destruct (serve_state_independent limit tab st [] q) as [A B]. rewrite S in A, B. cbn [snd] in A, B.
+      rewrite A, B. reflexivity.
+  Qed.
+
   (* ---- isolation between groups ----------------------------------------- *)
 
   (* What a request to a route gets depends only on the options of the group that registered
